@@ -47,7 +47,13 @@ def config_coq(spec, lineage_pops, lineage_counts, dem_pops, lc, beta_scale=None
     perm = [dem_pops.index(p) for p in lineage_pops]
     fuel = 4 * n * nl + 2 * len(lineage_pops) * n + 10
     rec = spec.get('recombination_rate') or 0.0
-    bs = '(fun N a => 0%float)' if beta_scale is None else f'(fun N a => {C.flit(beta_scale)}%float)'
+    if m['kind'] == 'beta' and m.get('scale_time', True):
+        # scaled Beta model: the time scale contains real powers; the model receives the documented value, computed
+        # independently of the implementation, as a table over the population sizes of the configuration
+        bs = '(fun N a => ' + ''.join(f'if PrimFloat.eqb N {C.flit(N)}%float then {C.flit(C.beta_timescale(m["alpha"], N))}%float else '
+                                      for N in C.spec_sizes(spec)) + '0%float)'
+    else:
+        bs = '(fun N a => 0%float)' if beta_scale is None else f'(fun N a => {C.flit(beta_scale)}%float)'
     return (f'(mkConfig (T:=float) {fmodel_coq(m)} {bs} {nl}%nat {C.natlist(lineage_counts)} {C.natlist(perm)} '
             f'{spec.get("n_unlinked", 0)}%nat {C.flit(rec)}%float {b2(lc)} {fuel}%nat)')
 
@@ -96,7 +102,8 @@ def flatten(v):
 def run_items(res, pid, name, items, what='statistic differs from the model value', impl_extra=None):
     """Evaluates every item on the implementation and in the Gallina model and compares.
     Returns list of (item, impl_result, model_values) for further oracles."""
-    payloads = [{'cases': [{'spec': it['spec'], 'ops': [o['py'] for o in it['ops']] + (impl_extra or [])}]} for it in items]
+    payloads = [{'cases': [{'spec': it['spec'], 'prelude': it.get('prelude', []),
+                            'ops': [o['py'] for o in it['ops']] + (impl_extra or [])}]} for it in items]
     outs = C.run_impl_parallel('numeric.py', payloads, timeout=1800)
     bodies, keep = [], []
     for i, (it, o) in enumerate(zip(items, outs)):
